@@ -498,7 +498,8 @@ func (g *Gen) hashCmd() []string {
 		if g.chance(4) {
 			return a
 		}
-		a = append(a, g.pick("0", "1", "2", "3", "10", "-1", "-3", "-10", "x", "-9223372036854775808", "1000"))
+		// (a huge positive count asks for "all of them, each once")
+		a = append(a, g.pick("0", "1", "2", "3", "10", "-1", "-3", "-10", "x", "-9223372036854775808", "1000", "9223372036854775807", "4611686018427387904", "4294967296"))
 		if g.chance(2) {
 			a = append(a, g.kw("WITHVALUES"))
 		}
@@ -578,7 +579,7 @@ func (g *Gen) setCmd() []string {
 		if g.chance(3) {
 			return a
 		}
-		return append(a, g.pick("0", "1", "2", "3", "10", "-1", "-3", "-10", "x", "-9223372036854775808", "1000"))
+		return append(a, g.pick("0", "1", "2", "3", "10", "-1", "-3", "-10", "x", "-9223372036854775808", "1000", "9223372036854775807", "4611686018427387904", "4294967296"))
 	case 15, 16, 17:
 		return append([]string{g.name(g.pick("SINTER", "SUNION", "SDIFF"))}, keys(1)...)
 	case 18, 19, 20:
@@ -632,7 +633,7 @@ func (g *Gen) keyCmd() []string {
 			// one call over the whole (small) keyspace, with the filters SCAN knows
 			a := []string{g.name("SCAN"), "0", g.kw("COUNT"), "1000"}
 			if g.chance(2) {
-				a = append(a, g.kw("TYPE"), g.pick("string", "list", "hash", "set", "zset"))
+				a = append(a, g.kw("TYPE"), g.kw(g.pick("string", "list", "hash", "set", "zset")))
 			}
 			if g.chance(3) {
 				a = append(a, g.kw("MATCH"), g.pattern())
